@@ -13,6 +13,16 @@ CHECKS = {
                      "the same rule (established for all impls in the workspace by this rule; user impls out of scope). One reviewed exception: "
                      "[T;N] parse twin's dead Err arm of Vec::try_into.",
                 ref="§4 C03; §3.3; Appendix A, D"),
+    "C05": dict(level="other", tech="typestate (acquire/release pairing, must-pass-through) rules on effect decision trees from typed HIR",
+                text="On the effect decision trees of every combinator (generic code: all grammars, all inputs): snapshot and restore/clear_snapshot "
+                     "are balanced on every path; every path that recovers from a failed child (next alternative, None option, end of repetition, "
+                     "negative look-ahead) passes restore, with a snapshot taken before the attempt, before any further stack/cursor/child event; "
+                     "look-ahead nodes snapshot and never clear (stack restored even on success); no cursor produced inside a failed attempt is used "
+                     "afterwards; who-may-call: every caller of the snapshot API satisfies the pairing rule. Necessary structural conditions, not "
+                     "acceptance on inputs.",
+                note="Assumes pest::Stack implements snapshot/restore as documented (known unsound nested clear_snapshot in pest 2.7.14 is listed in the "
+                     "evidence assumptions); cursor primitives move the cursor only on success (C09 rule).",
+                ref="§4 C05; §3.3"),
     "C12": dict(level="translation_validation", tech="sibling normal-form equality of typed HIR (repo copy vs pest source)",
                 text="Translation validation: Position::{new,line_col,line_of,find_line_start,find_line_end,at_start,at_end,...} "
                      "are shown to be the same programs as pest's (typed-HIR normal forms equal), hence equal results for every "
